@@ -126,7 +126,9 @@ fn fill_chain(bc: &mut Blockchain, shared: u64, tip: u64, tag: u8) {
         b.id = id;
         // shared prefix carries the same hashes on both chains; the suffix is chain specific
         let mut h = [0u8; 32];
-        for (k, x) in h.iter_mut().enumerate() { *x = (id as u8).wrapping_mul(31).wrapping_add(k as u8 * 7).wrapping_add(if id <= shared { 0 } else { tag }); }
+        // (beyond the fork point the two chains differ in every odd byte only: a comparison that looks at less than the
+        // sampled byte PAIR would take them for the same block)
+        for (k, x) in h.iter_mut().enumerate() { *x = (id as u8).wrapping_mul(31).wrapping_add(k as u8 * 7).wrapping_add(if id <= shared || k % 2 == 0 { 0 } else { tag }); }
         h[31] = if id <= shared { 0 } else { tag };
         b.hash = h;
         bc.blockring.add_block(&b);
